@@ -453,6 +453,10 @@ func (t *wal) Clear() error {
 	t.Lock()
 	defer t.Unlock()
 
+	return t.clearWithoutLock()
+}
+
+func (t *wal) clearWithoutLock() error {
 	err := multierr.Combine(
 		t.currentSegment.Close(),
 		t.readOnlySegments.Close(),
@@ -512,6 +516,14 @@ func (t *wal) TruncateLog(lastSafeOffset int64) (int64, error) { //nolint:revive
 		return InvalidOffset, nil
 	}
 
+	if lastSafeOffset < t.firstOffset.Load() {
+		// No entry at or below the requested offset is part of the log anymore
+		if err := t.clearWithoutLock(); err != nil {
+			return InvalidOffset, err
+		}
+		return t.LastOffset(), nil
+	}
+
 	if lastSafeOffset >= t.currentSegment.BaseOffset() {
 		// Truncation is only affecting the
 		if err := t.currentSegment.Truncate(lastSafeOffset); err != nil {
@@ -530,7 +542,7 @@ func (t *wal) TruncateLog(lastSafeOffset int64) (int64, error) { //nolint:revive
 				return InvalidOffset, err
 			case segment == nil:
 				// There are no segments left
-				if err := t.Clear(); err != nil {
+				if err := t.clearWithoutLock(); err != nil {
 					return InvalidOffset, err
 				}
 				return t.LastOffset(), nil
@@ -550,8 +562,12 @@ func (t *wal) TruncateLog(lastSafeOffset int64) (int64, error) { //nolint:revive
 					return InvalidOffset, err
 				}
 
-				err = segment.Close()
-				return lastSafeOffset, err
+				if err = segment.Close(); err != nil {
+					return InvalidOffset, err
+				}
+				t.lastAppendedOffset.Store(lastSafeOffset)
+				t.lastSyncedOffset.Store(lastSafeOffset)
+				return lastSafeOffset, nil
 			default:
 				// The entire segment can be discarded
 				if err := segment.Get().Delete(); err != nil {
